@@ -6,6 +6,9 @@ OUT="$ROOT/seeded/RESULTS.md"
 echo "| seeded change | property | tier | detected | violation keys |" > "$OUT.tmp"; echo "|---|---|---|---|---|" >> "$OUT.tmp"
 for D in "$ROOT"/seeded/C*-m*; do
   n=$(basename "$D")
+  if [ -f "$D/superseded" ]; then
+    echo "| $n | - | - | n/a | $(head -c 400 "$D/superseded" | tr '\n' ' ') |" >> "$OUT.tmp"; echo "$n: superseded"; continue
+  fi
   if ! git -C /repo apply --check "$D/patch.diff" 2>/dev/null; then
     # the patch rewrites lines that a later fix: commit changed; keep the detection recorded when it still applied
     prev=$(python3 -c "import json;d=json.load(open('$D/detection.json'));print('yes' if d.get('detected') else 'NO')" 2>/dev/null || echo unknown)
